@@ -52,7 +52,7 @@ def observed_binds(result, r):
     return ("ok", sorted(obs, key=lambda o: o["name"]))
 
 
-def gen_term(rng, exports, depth):
+def gen_term(rng, exports, depth, strays=False):
     """random admissible term of the given nesting depth (impl -> spec direction); returns (term, names)"""
     term, names = {"t": "lib"}, {e: e for e in exports}
     pool = list(exports) + ["x", "y", "z", "w"]
@@ -61,6 +61,11 @@ def gen_term(rng, exports, depth):
         cur = sorted(names)
         if op in ("only", "except"):
             ids = [n for n in cur if rng.random() < 0.5]
+            if strays and rng.random() < 0.35:
+                # identifiers that are not in the set (never were, or were removed or renamed away further in): listing
+                # them is an error or has no effect - it never binds them
+                gone = [e for e in list(exports) + ["x", "p-" + exports[0]] if e not in names]
+                ids += rng.sample(gone, min(len(gone), rng.randint(1, 2)))
             rng.shuffle(ids)
             term = {"t": op, "s": term, "ids": ids}
             names = {n: o for n, o in names.items() if (n in ids) == (op == "only")}
@@ -151,7 +156,7 @@ def run(ctx):
         k = rng.choice([1, 1, 1, 2, 3])
         d, merged, okay = [], {}, True
         for _ in range(k):
-            t, names = gen_term(rng, ex4, rng.randint(0, 5))
+            t, names = gen_term(rng, ex4, rng.randint(0, 5), strays=(len(decls) % 3 == 0))
             for nme, o in names.items():
                 if merged.get(nme, o) != o:
                     okay = False
@@ -159,6 +164,21 @@ def run(ctx):
             d.append(t)
         if okay:
             decls.append(d)
+    # directed: an outer only/except/rename that lists a name the inner layer has just removed or renamed away, next to one
+    # that is still there (every inner layer x outer layer x position)
+    L = {"t": "lib"}
+    a_, b_, c_ = ex4[0], ex4[1], ex4[2]
+    inners = [({"t": "except", "s": L, "ids": [a_]}, a_, b_), ({"t": "only", "s": L, "ids": [b_, c_]}, a_, b_),
+              ({"t": "rename", "s": L, "pairs": [[a_, "x"]]}, a_, b_), ({"t": "prefix", "s": L, "p": "p-"}, a_, "p-" + b_),
+              ({"t": "except", "s": {"t": "except", "s": L, "ids": [c_]}, "ids": [a_]}, a_, b_),
+              ({"t": "except", "s": {"t": "prefix", "s": L, "p": "p-"}, "ids": ["p-" + a_]}, "p-" + a_, "p-" + b_)]
+    for inner, gone, kept in inners:
+        for outer in ("only", "except"):
+            for ids in ([gone], [gone, kept], [kept, gone]):
+                decls.append([{"t": outer, "s": inner, "ids": ids}])
+        decls.append([{"t": "rename", "s": inner, "pairs": [[gone, "y"]]}])
+        decls.append([{"t": "rename", "s": inner, "pairs": [[gone, "y"], [kept, "z"]]}])
+        decls.append([{"t": "prefix", "s": {"t": "only", "s": inner, "ids": [gone, kept]}, "p": "q-"}])
     jobs = [job_for(d, i, ex4, 1) for i, d in enumerate(decls)]
     results = run_jobs(jobs, ctx.dir, tag="validate", timeout=1200)
     tpath = os.path.join(ctx.dir, "trace.ndjson")
@@ -171,7 +191,7 @@ def run(ctx):
             decls.append(d)
             if st != "ok":
                 obs = [{"name": "!" + st, "origin": "?"}]
-            f.write(json.dumps({"ev": "import", "decl": d, "obs": obs}) + "\n")
+            f.write(json.dumps({"ev": "import", "decl": d, "failed": st != "ok", "obs": obs if st == "ok" else []}) + "\n")
     tr = run_tlc("ImportSetTrace.tla", "ImportSetTrace.cfg", ctx.dir, workers=1, timeout=1800, xss="512m",
                  env={"TRACE": tpath}, want_tags=("MISMATCH",))
     done = [m for m in tr.msgs if m[0] == "DONE"]
